@@ -460,6 +460,9 @@ def run(ctx) -> None:
     C08.eqhash_agreement(ctx, ('forml.io.asset', 'forml.project'), floor=3)
     C05.gap_free(ctx)
     C05.key_paths(ctx)
+    # a release equal under PEP 440 to an existing one ('1.0' / '1.0.0') is refused: the listing is a set of keys, two spellings
+    # of one version share one key and one of the two packages becomes unreachable
+    C05.monotonic_release(ctx)
     install_guard(ctx)
     zip_safe(ctx)
     level_key(ctx)
